@@ -296,7 +296,8 @@ package inode
 //@   requires [Q3-max] sz <= 1073774592 @C19 @C11
 //@   preserves [allocInv] allocInv() @C15 @C04
 //@   allocates buf.Buf, marshal.Enc, marshal.Dec, cell:uint64, []uint8
-//@   modifies ip.Size, ip.ShrinkSize, ip.blks[*], dirtyinum, wroteinum, abits, atxn.allocBnums, []uint64@alloctxn.AllocTxn.allocBnums, atxn.freeBnums, []uint64@alloctxn.AllocTxn.freeBnums, []uint8@buf.Buf.Data, buf.Buf.dirty, zeroed, tailzeroedto
+//@   modifies ip.Size, ip.ShrinkSize, ip.blks[*], dirtyinum, wroteinum, abits, atxn.allocBnums, []uint64@alloctxn.AllocTxn.allocBnums, atxn.freeBnums, []uint64@alloctxn.AllocTxn.freeBnums, []uint8@buf.Buf.Data, buf.Buf.dirty, zeroed, tailzeroedto, shrinkdue
+//@   ghostexit shrinkdue = ite(result, store(shrinkdue, ip.Inum, true), shrinkdue)
 //@   ensures [ibits-same] abits[theIalloc] == old(abits)[theIalloc] @C05
 //@   ensures [Fn3-size] ip.Size == sz @C02
 //@   ensures [F2-more] result <==> ip.IsShrinking() @C05
